@@ -31,13 +31,29 @@ fn table_def(name: &str, t: &str) -> String {
 pub const MODES: [(&str, &str, &str); 6] = [("inner", "⋈", "table/join"), ("left", "⟕", "table/left-outer-join"), ("right", "⟖", "table/right-outer-join"),
   ("full", "⟗", "table/full-outer-join"), ("semi", "⋉", "table/left-semi-join"), ("anti", "▷", "table/left-anti-join")];
 
+/// a table operand: the variable (`v`), a mutable variable (`m`) or the literal written in place (`l`; a table
+/// without rows has no literal and stays a variable)
+fn table_opnd(defs: &mut String, name: &str, t: &str, form: char) -> String {
+  let d = table_def(name, t);
+  let empty = t.split_once('|').unwrap().1.is_empty();
+  if form == 'l' && !empty { return d.trim_end().split_once(" := ").unwrap().1.to_string(); }
+  if form == 'm' && !empty { defs.push('~'); }
+  defs.push_str(&d);
+  name.to_string()
+}
+
+/// trailing field `form=<letters>`: one letter per table operand, then one for the index of a selection
 pub fn source(case: &str) -> String {
   let f: Vec<&str> = case.split('\t').collect();
+  let forms: Vec<char> = f.last().and_then(|t| t.strip_prefix("form=")).unwrap_or("").chars().collect();
+  let form = |i: usize| forms.get(i).copied().unwrap_or('v');
+  let mut defs = String::new();
   match f[0] {
     "join" => {
       let m = MODES.iter().find(|m| m.0 == f[1]).unwrap();
-      let expr = if f[2] == "sym" { format!("ta {} tb", m.1) } else { format!("{}(ta, tb)", m.2) };
-      format!("{}{}{}", table_def("ta", f[3]), table_def("tb", f[4]), expr)
+      let a = table_opnd(&mut defs, "ta", f[3], form(0)); let b = table_opnd(&mut defs, "tb", f[4], form(1));
+      let expr = if f[2] == "sym" { format!("{} {} {}", a, m.1, b) } else { format!("{}({}, {})", m.2, a, b) };
+      format!("{}{}", defs, expr)
     }
     _ => {
       let ix = match f[1] {
@@ -46,7 +62,9 @@ pub fn source(case: &str) -> String {
         "range" => { let (a, b) = f[3].split_once(',').unwrap(); format!("{}..={}", a, b) }
         _ => format!("[{}]", f[3].replace(',', " ")),
       };
-      format!("{}ta[{}]", table_def("ta", f[2]), ix)
+      let t = table_opnd(&mut defs, "ta", f[2], if form(0) == 'l' { 'v' } else { form(0) });
+      let ix = match form(1) { 'v' | 'm' if forms.len() > 1 => { defs.push_str(&format!("{}ix := {}\n", if form(1) == 'm' { "~" } else { "" }, ix)); "ix".to_string() } _ => ix };
+      format!("{}{}[{}]", defs, t, ix)
     }
   }
 }
@@ -125,6 +143,14 @@ pub fn generate(seed: u64, thorough: bool, sink: &mut Sink) -> Vec<String> {
              let m: Vec<String> = (0..len).map(|_| rng.chance(1, 2).to_string()).collect();
              cases.push(format!("sel\tmask\t{}\t{}", t, m.join(","))); sink.hit("select:mask"); }
     }
+  }
+  // how the tables and the index are written
+  let mut frng = Rng::new(seed ^ 0xc18f);
+  for c in cases.iter_mut() {
+    if frng.chance(1, 2) { sink.hit("operands:variables"); continue; }
+    let forms: String = (0..2).map(|_| *frng.pick(&['l', 'v', 'm'])).collect();
+    sink.hit(&format!("operands:{}", forms));
+    c.push_str(&format!("\tform={}", forms));
   }
   cases
 }
